@@ -71,6 +71,11 @@ func (s *PFCPSession) UpdatePDR(p pdr) error {
 		if v.pdrID == p.pdrID {
 			// the counter cell was assigned by the datapath when the PDR was created; it stays with the PDR
 			p.ctrID = v.ctrID
+
+			// so does the fact that its TEID was chosen by the UP function and has to be given back
+			if v.UPAllocateFteid && p.tunnelTEID == v.tunnelTEID {
+				p.UPAllocateFteid = true
+			}
 			s.pdrs[idx] = p
 
 			return nil
